@@ -158,6 +158,15 @@ class Env:
                     "echo \"grepnl: unrecognized option '$a'\" >&2; exit 2;;\n  esac\ndone\n"
                     "exec %s \"$@\"\n" % self.real["grep"])
         os.chmod(self.grepnl, 0o755)
+        # diff / cmp that cannot open /dev/fd/N (as on a system without it): forces xzdiff's temporary-file path
+        self.nodevfd = {}
+        for t in ("diff", "cmp"):
+            pth = os.path.join(self.bin, "nodevfd-" + t)
+            with open(pth, "w") as f:
+                f.write("#!/bin/sh\nfor a in \"$@\"; do\n  case $a in\n    /dev/fd/*) echo \"%s: $a: No such file or directory\" >&2; exit 2;;\n  esac\ndone\n"
+                        "exec %s \"$@\"\n" % (t, self.real[t]))
+            os.chmod(pth, 0o755)
+            self.nodevfd[t] = pth
         e = {k: v for k, v in os.environ.items()
              if k not in ("POSIXLY_CORRECT", "GREP", "GREP_OPTIONS", "GREP_COLOR", "GREP_COLORS", "XZ_OPT",
                           "XZ_DEFAULTS", "GZIP", "BZIP", "BZIP2", "DIFF", "CMP", "LD_PRELOAD")
@@ -461,6 +470,8 @@ def run_case(env, c, verbose=False):
             xenv = None
             if path == "sed":
                 xenv = {"GREP": env.grepnl + ("" if not mode else " " + mode[0])}
+            if path == "nodevfd":
+                xenv = {"DIFF": env.nodevfd["diff"], "CMP": env.nodevfd["cmp"]}
             rc, out, err = run([os.path.join(env.bin, tool)] + c["args"], z, zin, xenv)
             if verbose:
                 print("%s [%s]: %r rc=%d\n  stdout=%r\n  stderr=%r" % (tool, path, c["args"], rc, out, err[:300]))
@@ -779,7 +790,9 @@ def grid_diff_pairs(env, tier):
             bad = a[2] != "ok" or b[2] != "ok"
             for tool in ("xzdiff", "xzcmp"):
                 for o in optsets[tool]:
-                    yield mkcase("pairs", tool, o + [fa[0], fb[0]], [fa, fb], expect="status2" if bad else "mirror")
+                    both_compressed = a[0] != "plain" and b[0] != "plain"
+                    yield mkcase("pairs", tool, o + [fa[0], fb[0]], [fa, fb], ("label", "nodevfd") if both_compressed and (T or not o) else ("label",),
+                                 expect="status2" if bad else "mirror")
     # large files that differ in the first byte / in the last line / not at all
     for fa_, fb_ in ((("xz", "BIGA"), ("xz", "BIGB")), (("xz", "BIGA"), ("plain", "BIGB")), (("gz", "BIGB"), ("xz", "BIGA")), (("xz", "BIGA"), ("xz", "BIGC")),
                      (("xz", "BIGA"), ("lzma", "BIGA"))):
